@@ -90,6 +90,24 @@ def directed_histories(seed, tier):
     return out
 
 
+def via_histories(seed, tier):
+    """Absolute paths addressed through the handle of another group (created before or within the current container):
+    build X . B . [delete] . [B] . op on X via the other group . tail.  -> [(history, check_from)]"""
+    a, b, c, k = treeexp.spell(seed)
+    A, AA, O = f"/{a}", f"/{a}/{a}", f"/{c}"
+    via = "via:" + O
+    builds = [[["set", AA, "abs"]], [["grp", A, "abs"]], [["set", AA, "abs"], ["sa", A, k, "abs"]], [["set", A, "abs"]]]
+    pres = [[], [["del", A, "abs"]], [["del", AA, "abs"]]]
+    ops = [["grp", A, via], ["set", A, via], ["set", AA, via], ["grp", AA, via], ["del", A, via], ["del", AA, via], ["rg", A, via], ["rg", AA, via]]
+    tails = [[], [["B"]], [["B"], ["set", AA, "abs"]]]
+    out = []
+    for bu, early, pre, nb, op, tail in itertools.product(builds, (True, False), pres, (0, 1), ops, tails):
+        recv = [["grp", O, "abs"]]
+        h = bu + (recv if early else []) + [["B"]] + pre + [["B"]] * nb + ([] if early else recv) + [op] + tail
+        out.append((h, len(bu)))
+    return out
+
+
 def run(tier, seed):
     cfgs = configs(tier, seed)
     dcfg = treeexp.make_cfg("directed", seed, "narrow", max_containers=8)
@@ -114,7 +132,7 @@ def run(tier, seed):
             r["max_containers"] = cfg["max_containers"]
             r["target_depth"] = depth
             cov["families"][name] = r
-        hs = directed_histories(seed, tier)
+        hs = directed_histories(seed, tier) + via_histories(seed, tier)
         res = pool.map("check_history", [("directed", h, cf) for h, cf in hs], chunk=16, item_deadline=60)
         steps = 0
         nd = 0
